@@ -520,7 +520,7 @@ macro_rules! disp_prop {
             }
             fn cases(&self, tier: Tier) -> usize {
                 match tier {
-                    Tier::Quick => 1500,
+                    Tier::Quick => 4500,
                     Tier::Thorough => 30000,
                 }
             }
